@@ -5,7 +5,7 @@ from __future__ import annotations
 import ast
 
 from ..flow import flow_of, path_of
-from ..loader import dotted, last_name, short, walk_local
+from ..loader import dotted, enclosing_stmt, last_name, short, walk_local
 
 FRESH_ALLOC = {"zeros", "empty", "ones", "array", "copy", "zeros_like", "empty_like", "full", "asarray", "list", "dict"}
 
@@ -365,3 +365,81 @@ def role_agreement(ctx, rid, rels, func_filter=None, what=""):
                                         construct=short(n, 80), detail={"callee": cq})
                 if matched:
                     ctx.ok(rid, n, "positional arguments named like the callee's parameters are in those parameters' positions")
+
+
+# --------------------------------------------------------------------------
+# stale loop variable
+# --------------------------------------------------------------------------
+
+def _for_targets(t_):
+    if isinstance(t_, ast.Name):
+        yield t_.id
+    elif isinstance(t_, (ast.Tuple, ast.List)):
+        for e in t_.elts:
+            yield from _for_targets(e)
+    elif isinstance(t_, ast.Starred):
+        yield from _for_targets(t_.value)
+
+
+def stale_loop_variable(ctx, rid, rels, func_filter=None, what=""):
+    """A `for` variable is not read after its loop has ended.
+
+    A read of a name all of whose reaching definitions are targets of `for` loops
+    that do not enclose the read (typically inside a later loop whose own variable
+    was renamed, or in a statement moved out of the loop) denotes the *last* element
+    a finished loop visited, not the element the reading code is about."""
+    for m, q, f in ctx.tree.all_funcs(rels):
+        if func_filter is not None and not func_filter(q, f):
+            continue
+        loops = [n for n in walk_local(f) if isinstance(n, (ast.For, ast.AsyncFor))]
+        if not loops:
+            continue
+        bound = {}
+        for L in loops:
+            for nm in _for_targets(L.target):
+                if nm != "_":
+                    bound.setdefault(nm, []).append(L)
+        inside = {id(L): {id(x) for x in ast.walk(L)} for L in loops}
+        fl = None
+        flagged_loops = set()
+        seen_keys = set()
+        for n in walk_local(f):
+            if not (isinstance(n, ast.Name) and isinstance(n.ctx, ast.Load) and n.id in bound):
+                continue
+            Ls = bound[n.id]
+            comp_bound = False
+            p = getattr(n, "_parent", None)
+            while p is not None and p is not f:
+                if isinstance(p, (ast.ListComp, ast.SetComp, ast.DictComp, ast.GeneratorExp)) and any(
+                    n.id in set(_for_targets(g.target)) for g in p.generators
+                ):
+                    comp_bound = True
+                    break
+                p = getattr(p, "_parent", None)
+            if comp_bound:
+                continue  # the comprehension's own variable
+            if any(id(n) in inside[id(L)] for L in Ls):
+                continue  # read inside (one of) its own loop(s)
+            if not any((n.lineno, n.col_offset) > (L.end_lineno, L.end_col_offset) for L in Ls):
+                continue
+            if fl is None:
+                fl = flow_of(f)
+            try:
+                at = fl.cfg.node_of(n)
+            except Exception:
+                continue
+            defs = [d for d, _ in fl.rd(n.id, at)]
+            if not defs:
+                continue
+            if all(d.kind == "iter" and isinstance(d.stmt, (ast.For, ast.AsyncFor)) and id(n) not in inside.get(id(d.stmt), ()) for d in defs):
+                L = defs[0].stmt
+                flagged_loops.add(id(L))
+                key = (n.id, L.lineno)
+                if key in seen_keys:
+                    continue
+                seen_keys.add(key)
+                ctx.bad(rid, n, f"`{n.id}` is the variable of the loop `for {short(L.target, 30)} in {short(L.iter, 40)}` that has already ended; read here it is the last element that loop visited, not the element this statement is about{what}",
+                        construct=f"stale loop variable {n.id} in {short(enclosing_stmt(n), 60)}")
+        for L in loops:
+            if id(L) not in flagged_loops:
+                ctx.ok(rid, L, f"{q}: variables of `for {short(L.target, 30)}` are not read after the loop", nontrivial=False)
